@@ -75,6 +75,8 @@ def q_from_float(F):
         k = _LAYOUT_COUNTER[0] % 5
         if k == 1:
             q = np.asfortranarray(q)
+            if (_LAYOUT_COUNTER[0] // 5) % 2 and os.environ.get("VERIF_READONLY", "1") != "0":
+                q.flags.writeable = False          # (a column-major working "copy" that is the argument itself shows at once)
         elif k == 2:
             q = np.ascontiguousarray(q.T).T
         elif k == 4:
